@@ -10,10 +10,10 @@ cargo test --workspace --no-fail-fast --offline 2>&1 | grep -E "^test result" | 
 cp _mutation/demo.rs $D/tests/zz_demo.rs
 echo "== demo with change"
 cargo test -p $PKG --test zz_demo --offline 2>&1 | grep -E "^test result|panicked" | head -5
-git diff > /tmp/mut_saved.patch; git checkout -- main generator derive
+git diff > $W.saved.patch; git checkout -- main generator derive
 cp _mutation/demo.rs $D/tests/zz_demo.rs
 echo "== demo without change"
 cargo test -p $PKG --test zz_demo --offline 2>&1 | grep -E "^test result" | head -3
 rm -f $D/tests/zz_demo.rs
-git apply /tmp/mut_saved.patch
+git apply $W.saved.patch
 git status --short | head -5
